@@ -8,6 +8,8 @@ from .. import fields, paths
 from ..core import FUNC, call_attr, calls_in, const, dotted, is_const, kwarg, norm, slice_parts, text, walk_local
 
 EXPLANATION = [
+    'C10.bearer-kind: att.is_enhanced_bearer returns exactly isinstance(bearer, EnhancedBearer) (the narrowing all bearer branches rely on).',
+    "C10.total-mappers: every display mapper of an ATT / HCI field is total on the field's values (no indexing with the value, no fixed-format unpack): str() of a PDU, evaluated for the debug log before dispatch, cannot raise.",
     "C10.entry-length-octet: the Read By Type / Read By Group Type handlers cut each entry's value to min(<MTU bound>, 253 / 251): the entry length fits its one-octet field at every ATT_MTU.",
     'C10.bearer-attributes: every attribute read from a `Bearer` parameter (Connection | LeCreditBasedChannel) in bumble.att / bumble.gatt_server exists on every member class possible at the site (isinstance / is_enhanced_bearer narrowing followed): no AttributeError on the enhanced bearer.',
     'C10.blob-part-size: in on_att_read_blob_request the part size is min(bearer.att_mtu - 1, remaining) (or clamped from above by that bound): a Read Blob Response never exceeds ATT_MTU.',
@@ -696,7 +698,29 @@ def entry_length_octet(ctx):
         R.check(ok, rule, f'{SRV}.{name}', f'value cut to min(..., <= {255 - hdr})', f'the value of an entry is cut to `{norm(sts[0].value) if sts else "?"}` only: with ATT_MTU above {255 + 2} an attribute value longer than {255 - hdr} octets gives an entry length that does not fit its one-octet field - building the response raises and the request is never answered', p.loc(sts[0]) if sts else p.loc(fn))
 
 
+def total_mappers_rule(ctx, rule='C10.total-mappers'):
+    from ..generic_rules import total_mappers
+    total_mappers(ctx, rule, ['bumble.att', 'bumble.hci'], floor=5)
+
+
+def bearer_kind(ctx):
+    """is_enhanced_bearer is the TypeIs narrowing every caller branches on: it answers exactly `isinstance(bearer,
+    EnhancedBearer)`.  Any further condition (the PSM, the state) sends an L2CAP channel down the fixed-bearer branch,
+    where `bearer.handle` does not exist."""
+    R, p = ctx.r, ctx.p
+    rule = 'C10.bearer-kind'
+    fn = p.find('bumble.att.is_enhanced_bearer')
+    if fn is None:
+        R.bad(rule, 'bumble.att.is_enhanced_bearer', 'anchor missing')
+        return
+    rets = [r.value for r in walk_local(fn) if isinstance(r, ast.Return)]
+    ok = len(rets) == 1 and isinstance(rets[0], ast.Call) and dotted(rets[0].func) == 'isinstance' and len(rets[0].args) == 2 and norm(rets[0].args[0]) == fn.args.args[0].arg
+    R.check(ok, rule, 'bumble.att.is_enhanced_bearer', 'a plain isinstance test', f'is_enhanced_bearer returns `{norm(rets[0])[:70] if rets else ""}`: an enhanced bearer for which the extra condition is false (a bearer on an application-chosen PSM) is treated as a Connection - `bearer.handle` raises before dispatch and no request on that bearer is answered', p.loc(fn))
+
+
 RULES = [
+    ('C10.bearer-kind', bearer_kind),
+    ('C10.total-mappers', total_mappers_rule),
     ('C10.entry-length-octet', entry_length_octet),
     ('C10.bearer-attributes', bearer_attributes),
     ('C10.blob-part-size', blob_part_size),
